@@ -1,5 +1,5 @@
 import Properties.C04
-import Proofs.MsgLayer.Deliver
+import Proofs.MsgLayer.Keys
 /-!
 # C04, trace level — a request identifier is executed at most once per lifetime
 
@@ -73,6 +73,36 @@ theorem C04_expiry_not_early (fuel : Nat) (s : State) (bound : Nat) (R : Remote)
     (hev : e.ev = .fireExpire R M) :
     HasEntry (run s pre).1 R M e.time ∧ e.time < bound :=
   advance_fireExpire fuel s bound R M pre post e hsplit hev
+
+/-- **C04 (an identifier is never recorded twice).** In every state reachable from the initial
+one the keys of the de-duplication table are pairwise distinct (`KInv`; preserved by every event
+from any state: `handle_KInv`), so an identifier has one entry and one expiry timer. -/
+theorem C04_keys_unique (cfg : Cfg) (mid token : Nat) (f : Nat → Nat) (es : List TEv) :
+    KInv (run (init cfg mid token f) es).1 :=
+  run_KInv (init_KInv cfg mid token f) es
+
+/-- **C04 (the identifier is forgotten exactly `EXCHANGE_LIFETIME` after the first arrival).**
+Let a request `w` from `R` arrive at time `t` in a state with unique keys (`C04_keys_unique`) in
+which `(R, w.mid)` is not recorded; let anything happen afterwards (`es`: copies, other traffic,
+other timers — everything but the expiry timer of `(R, w.mid)`).  Whenever the event loop then
+fires timers (`advance`, any bound, any number), every expiry event for `(R, w.mid)` among them
+has time exactly `t + EXCHANGE_LIFETIME` — not earlier, however many copies arrived in between
+(copies do not restart or shorten the lifetime), and not later. -/
+theorem C04_expiry_exactly_at_lifetime (s : State) (hK : KInv s) (hs : s.shutMsg = false)
+    (R : Remote) (mcl : Bool) (w : Wire) (t : Nat)
+    (hreq : isRequest w.code = true) (hnew : isDup s R w = false)
+    (es : List TEv) (hno : ∀ e ∈ es, e.ev ≠ .fireExpire R w.mid) (fuel bound : Nat) :
+    ∀ e ∈ (advance fuel (run s (⟨t, .recv R mcl w⟩ :: es)).1 bound).2.2,
+      e.ev = .fireExpire R w.mid → e.time = t + s.cfg.exchangeLifetime := by
+  have h1 : HasEntry (step s ⟨t, .recv R mcl w⟩).1 R w.mid (t + s.cfg.exchangeLifetime) := by
+    have hs' : (setNow s t).shutMsg = false := hs
+    show HasEntry (handle (setNow s t) (.recv R mcl w)).1 R w.mid _
+    simp only [handle, hs', Bool.false_eq_true, ↓reduceIte]
+    exact recv_HasEntry_of_new (s := setNow s t) mcl hreq hnew
+  have h2 := C04_within_lifetime _ R w.mid _ h1 es hno
+  have hK2 : KInv (run (step s ⟨t, .recv R mcl w⟩).1 es).1 := run_KInv (step_KInv hK _) es
+  simp only [run]
+  exact advance_fireExpire_time fuel _ bound R w.mid _ hK2 h2
 
 /-- what a copy of a recorded request `w` from `R` puts on the wire at time `t` in state `s'` -/
 def copyOutput (s' : State) (R : Remote) (t : Nat) (w : Wire) : List Out :=
